@@ -104,10 +104,12 @@ ASSUMPTIONS = [
 BOUNDS = {
     "quick": {"term_nodes": 4, "extended_term_nodes": 3, "input_len": 4, "call_nodes": 3, "xref_ext_full": 3, "xref_short": 1,
               "xref": "<=3 nodes x all inputs, 4 nodes x len<=1",
+              "shape_operators": 3, "shape_operators_two_leaves": 2, "shape_wrapped_operators": 2, "xref_shapes_full": 5,
               "json_depth": 3, "json_width": 2, "json_depth3": "one non-atomic child per container",
               "json_nesting": 12, "tag_depth": 3, "tag_atoms": 5},
     "thorough": {"term_nodes": 5, "extended_term_nodes": 4, "input_len": 4, "call_nodes": 4, "xref_ext_full": 3, "xref_short": 2,
                  "xref": "<=4 nodes x all inputs (extended: <=3), larger x len<=2",
+                 "shape_operators": 4, "shape_operators_two_leaves": 3, "shape_wrapped_operators": 3, "xref_shapes_full": 5,
                  "json_depth": 3, "json_width": 2, "json_depth3": "all children of depth <= 2",
                  "json_nesting": 30, "tag_depth": 3, "tag_atoms": 7},
 }
@@ -198,6 +200,77 @@ def all_terms(max_nodes):
             out.extend(t for t in terms_of_size(n, True) if id(t) in _EXT_IDS)
         _ALL[max_nodes] = out
     return _ALL[max_nodes]
+
+
+# ---- operator association shapes (part "terms" / "xref", family "shapes") --------------------------
+# Every way of associating 2 .. K applications of the library's binary OPERATOR forms (+ | << >> & / and
+# Lift's *): all binary trees (left-nested, right-nested, mixed), every operator at every inner node.
+# `+`, `|` and `*` ACCUMULATE onto a left operand of their own kind and must do nothing of the sort with a
+# right operand, so the value structure of a term depends on how it was associated: a + (b + c) is
+# [va, [vb, vc]], (a + b) + c is [va, vb, vc].  The same trees with one unary constructor put on the root
+# or on the inner operator node (Many lower 0 / 1, Opt, map, Wrapper, `% name`, debug()).  Leaves are
+# consuming one-character matchers, so every value is the matched characters and the nesting of the
+# value shows the term structure.
+
+SH_OPS = ["seq", "alt", "kl", "kr", "fb", "nfb", "lift"]
+SH_LEAF = ("inset", "ab")
+SH_LEAVES2 = [("char", "a"), ("inset", "ab")]
+SH_LEAVES4 = [("char", "a"), ("inset", "ab"), ("string", "ab", 0), ("eof",)]
+
+
+def sh_unary(x):
+    return [("many", x, 0), ("many", x, 1), ("opt", x, None), ("map", x), ("wrap", x), ("named", x), ("debug", x)]
+
+
+def sh_trees(k, leaves, memo):
+    """All terms with exactly k binary operator nodes over SH_OPS and the given leaves (every tree shape)."""
+    if k not in memo:
+        if k == 0:
+            memo[k] = list(leaves)
+        else:
+            memo[k] = [(op, x, y) for i in range(k) for x in sh_trees(i, leaves, memo)
+                       for y in sh_trees(k - 1 - i, leaves, memo) for op in SH_OPS]
+    return memo[k]
+
+
+def sh_wrapped(k, memo):
+    """Trees with k operator nodes over the single leaf and exactly ONE unary constructor, on the root or on an
+    operator node directly below the root."""
+    out = []
+    for t in sh_trees(k, [SH_LEAF], memo):
+        out.extend(sh_unary(t))
+        op, x, y = t
+        if x[0] in SH_OPS:
+            out.extend((op, u, y) for u in sh_unary(x))
+        if y[0] in SH_OPS:
+            out.extend((op, x, u) for u in sh_unary(y))
+    return out
+
+
+_SHAPES = {}
+
+
+def shape_terms(tier):
+    if tier not in _SHAPES:
+        b = BOUNDS[tier]
+        one, two = {}, {}                # memo tables: single leaf / two leaves
+        out = list(sh_trees(2, SH_LEAVES2, two) if tier == "quick" else sh_trees(2, SH_LEAVES4, {}))
+        for k in range(3, b["shape_operators"] + 1):
+            if k <= b["shape_operators_two_leaves"]:
+                out.extend(sh_trees(k, SH_LEAVES2, two))
+            else:
+                out.extend(sh_trees(k, [SH_LEAF], one))
+        for k in range(2, b["shape_wrapped_operators"] + 1):
+            out.extend(sh_wrapped(k, one))
+        _SHAPES[tier] = out
+    return _SHAPES[tier]
+
+
+def term_list(family, tier):
+    """The enumerated term list a terms / xref unit indexes into."""
+    if family == "shapes":
+        return shape_terms(tier)
+    return all_terms(BOUNDS[tier]["term_nodes"])
 
 
 def term_size(t):
@@ -629,7 +702,7 @@ def replay_history(hist, upto):
     """Re-executes, in one process, what a terms unit did before it reached term `upto`: every earlier
     term of the unit, freshly built, through its whole schedule.  Owns state that leaks from one grammar
     to the next through module-level objects."""
-    terms = all_terms(BOUNDS[hist["tier"]]["term_nodes"])
+    terms = term_list(hist.get("family", "core"), hist["tier"])
     for ti in range(hist["lo"], upto):
         t = terms[ti]
         ops = schedule(t, term_size(t), hist["tier"])[0]
@@ -938,6 +1011,124 @@ def check_json_case(case):
         feats["accepted_once_listed_triggers_are_removed"] = rtext != text and guarded(loads, rtext)[0] == "ok"
         return [("json:accepts-documented-subset", {"text": text, "value": exp}, got, feats)]
     return [("json:value-equals-json.loads", {"text": text, "value": exp}, jsonable(got), feats)]
+
+
+# ---- number literals (part "jsonnum") ---------------------------------------------------------------
+# The documented subset excludes unicode and scientific notation, nothing else: a number literal
+# -?(0|[1-9][0-9]*)(\.[0-9]+)? of ANY size is inside it, and json.loads returns integers exactly (arbitrary
+# precision) and fractions as the nearest double.  Literals are enumerated as TEXT (repr() of a large float
+# would use an exponent): every integer within +-2 (thorough: +-8) of the representation boundaries of the
+# usual machine types, as integer / with ".0" / with ".5", both signs; 10**(k-1) and 10**k - 1 for the digit
+# lengths around every such boundary; fractions with 1 .. 40 digits and with up to 400 leading zeros
+# (precision, denormal and underflow boundaries of a double written without exponent).
+
+JN_LITERAL = re.compile(r"-?(0|[1-9][0-9]*)(\.[0-9]+)?\Z")
+JN_FRAMES = ["bare", "padded", "array", "second", "object", "nested"]
+JN_FIXED = ["0", "1", "7", "10", "0.0", "1.0", "10.0", "100.0", "0.1", "0.2", "0.3", "0.7", "1.1", "2.675", "1.005", "4.35",
+            "0.000001", "0.0000001", "123456.7", "123456789.123456789", "3.141592653589793238462643383279",
+            "1.7976931348623157", "2.2250738585072014", "4.9406564584124654", "0.30000000000000004"]
+
+
+def jn_boundaries(tier):
+    bs = [2 ** 31, 2 ** 32, 2 ** 53, 2 ** 63, 2 ** 64, 10 ** 15, 10 ** 16, 10 ** 17, 10 ** 22, 10 ** 23, 2 ** 100,
+          2 ** 1023, 2 ** 1024 - 2 ** 970, 2 ** 1024, 10 ** 308, 10 ** 309]
+    if tier != "quick":
+        bs += [2 ** k for k in range(50, 71) if 2 ** k not in bs] + [10 ** k for k in range(14, 25) if 10 ** k not in bs]
+        bs += [2 ** 24, 2 ** 52, 2 ** 54, 2 ** 127, 2 ** 128, 10 ** 307, 10 ** 310]
+    return bs
+
+
+_JN = {}
+
+
+def jn_literals(tier):
+    if tier in _JN:
+        return _JN[tier]
+    span = 2 if tier == "quick" else 8
+    mags = []
+    for b in jn_boundaries(tier):
+        for d in range(-span, span + 1):
+            mags += [str(b + d), str(b + d) + ".0", str(b + d) + ".5"]
+    for k in list(range(1, 25)) + [300, 308, 309, 310, 311, 400, 1000]:
+        for text in ("1" + "0" * (k - 1), "9" * k):
+            mags += [text, text + ".5"]
+    for k in (1, 2, 15, 16, 17, 18, 19, 20, 25, 30, 40):
+        mags += ["0." + "1" * k, "0." + "9" * k, "1." + "0" * (k - 1) + "1"]
+    for k in (1, 5, 10, 15, 16, 17, 20, 22, 100, 307, 308, 322, 323, 324, 330, 400):
+        mags += ["0." + "0" * k + "1", "0." + "0" * k + "49", "0." + "0" * k + "5"]
+    mags += JN_FIXED
+    out, seen = [], set()
+    for m in mags:
+        for text in (m, "-" + m):
+            if text not in seen:
+                seen.add(text)
+                out.append(text)
+    for text in out:                    # alphabet self-check: only literals of the documented subset
+        if not JN_LITERAL.match(text):
+            raise RuntimeError("C19 jsonnum: %r is not a number literal of the documented subset" % text[:40])
+    _JN[tier] = out
+    return out
+
+
+def jn_text(lit, frame):
+    return {"bare": lit, "padded": " \t" + lit + "\n ", "array": "[" + lit + "]", "second": "[0, " + lit + ", 1]",
+            "object": '{"a": ' + lit + ', "b": 1}', "nested": '{"k": [[' + lit + "," + lit + "]]}"}[frame]
+
+
+def exact_eq(a, b):
+    """strict_eq, and floats must be the same double (sign of zero included)."""
+    if type(a) is not type(b):
+        return False
+    if isinstance(a, list):
+        return len(a) == len(b) and all(exact_eq(x, y) for x, y in zip(a, b))
+    if isinstance(a, dict):
+        return list(sorted(a)) == list(sorted(b)) and all(exact_eq(a[k], b[k]) for k in a)
+    if isinstance(a, float):
+        return a.hex() == b.hex()
+    return a == b
+
+
+def jn_shown(v):
+    """Large numbers as text (evidence stays readable and JSON-safe: no inf, no 1000-digit integers)."""
+    if isinstance(v, list):
+        return [jn_shown(x) for x in v]
+    if isinstance(v, dict):
+        return dict((str(k), jn_shown(x)) for k, x in v.items())
+    if isinstance(v, bool) or v is None or isinstance(v, str):
+        return v
+    if isinstance(v, (int, float)):
+        r = repr(v)
+        return "%s(%s)" % (type(v).__name__, r if len(r) <= 48 else "%s...%s, %d characters" % (r[:20], r[-20:], len(r)))
+    return repr(v)[:80]
+
+
+def jn_is_hard(lit):
+    """Measured: the literal has more significant digits than a double keeps (an integer beyond 2**53 or a
+    fraction with more than 15 digits) - the cases where exact integer conversion and rounding matter."""
+    digits = lit.lstrip("-").replace(".", "").strip("0")
+    return len(digits) > 15
+
+
+def check_json_num_case(case):
+    """case = {"kind":"jsonnum","literal":text,"frame":one of JN_FRAMES,"entry":"loads"|"load"}"""
+    lit, frame = case["literal"], case["frame"]
+    if not JN_LITERAL.match(lit):
+        raise RuntimeError("C19 jsonnum: not a number literal of the documented subset")
+    text = jn_text(lit, frame)
+    exp = json.loads(text)                       # the oracle
+    entry = case.get("entry", "loads")
+    status, got = guarded(j_entry(entry), text)
+    shown_text = text if len(text) <= 100 else "%s...%s (%d characters)" % (text[:40], text[-40:], len(text))
+    feats = {"frame": frame, "entry": entry, "number": "float" if "." in lit else "int",
+             "more_digits_than_a_double_keeps": jn_is_hard(lit)}
+    if status == "hang":
+        return [("json:terminates", {"text": shown_text}, "no result within %d CPU-s" % DOC_GUARD_S, feats)]
+    if status == "exc":
+        return [("json:accepts-documented-subset", {"text": shown_text, "value": jn_shown(exp)},
+                 "rejected: " + " ".join(str(got).split())[:120], feats)]
+    if not exact_eq(got, exp):
+        return [("json:value-equals-json.loads", {"text": shown_text, "value": jn_shown(exp)}, jn_shown(got), feats)]
+    return []
 
 
 # ---- the caller modifies what it got, then parses again (part "jsonmut") --------------------------
@@ -1432,6 +1623,9 @@ def units(tier, seed):
     us = [{"part": "terms", "lo": lo, "hi": min(n, lo + per)} for lo in range(0, n, per)]
     xper = 600 if tier == "quick" else 6000
     us += [{"part": "xref", "lo": lo, "hi": min(n, lo + xper)} for lo in range(0, n, xper)]
+    ns = len(shape_terms(tier))                    # built in the parent as well
+    us += [{"part": "terms", "family": "shapes", "lo": lo, "hi": min(ns, lo + per)} for lo in range(0, ns, per)]
+    us += [{"part": "xref", "family": "shapes", "lo": lo, "hi": min(ns, lo + xper)} for lo in range(0, ns, xper)]
     nj = len(j_values(tier))
     jper = 1200 if tier == "quick" else 6000
     us += [{"part": "json", "lo": lo, "hi": min(nj, lo + jper)} for lo in range(0, nj, jper)]
@@ -1444,6 +1638,8 @@ def units(tier, seed):
     us += [{"part": "taglang", "lo": lo, "hi": min(nt, lo + tper)} for lo in range(0, nt, tper)]
     ntx = len(t_extra_asts(tier))
     us += [{"part": "tagx", "lo": lo, "hi": min(ntx, lo + 350)} for lo in range(0, ntx, 350)]
+    nn = len(jn_literals(tier))
+    us += [{"part": "jsonnum", "lo": lo, "hi": min(nn, lo + 200)} for lo in range(0, nn, 200)]
     us += [{"part": "tagedit"}, {"part": "jsonmut"}]
     return us
 
@@ -1522,8 +1718,7 @@ def _terms_hot(unit, tier):
     Nothing but the schedule runs here (re-deciding a disagreement would disturb the very history it
     may depend on); disagreements are returned as (term index, operation index)."""
     res = Result()
-    b = BOUNDS[tier]
-    terms = all_terms(b["term_nodes"])
+    terms = term_list(unit.get("family", "core"), tier)
     FAILV = peg.FAIL
     budget_ctx()                        # imports happen outside the CPU guard
     pending = []
@@ -1585,6 +1780,8 @@ def _terms_hot(unit, tier):
                 break
     res.maxi("max_process_calls_in_a_completed_parse", _MAX_STEPS[0])
     res.samples.append({"kind": "term", "term": terms[unit["lo"]], "input": "abA", "via": "process"})
+    if unit.get("family") == "shapes":
+        res.stat("operator_shape_terms", unit["hi"] - unit["lo"])
     return res.to_dict(), pending
 
 
@@ -1619,7 +1816,8 @@ def _decide_terms(res, unit, tier, pending):
     if len(pending) > MAX_REDECIDED:
         res.stat("disagreements_beyond_the_first_%d_per_unit_only_counted" % MAX_REDECIDED, len(pending) - MAX_REDECIDED)
         pending = pending[:MAX_REDECIDED]
-    terms = all_terms(BOUNDS[tier]["term_nodes"])
+    family = unit.get("family", "core")
+    terms = term_list(family, tier)
     sched = {}
     cases = []
     for ti, k in pending:
@@ -1648,7 +1846,7 @@ def _decide_terms(res, unit, tier, pending):
         via, s = sched[ti][k]
         prior = [list(o) for o in sched[ti][:k]]
         found = False
-        for extra in ({"prior": prior}, {"prior": prior, "history": {"tier": tier, "lo": unit["lo"], "index": ti}}):
+        for extra in ({"prior": prior}, {"prior": prior, "history": {"tier": tier, "lo": unit["lo"], "index": ti, "family": family}}):
             if not extra["prior"] and "history" not in extra:
                 continue
             case = {"kind": "term", "term": terms[ti], "input": s, "via": via}
@@ -1700,6 +1898,15 @@ def stream_cases(unit, tier):
     elif part == "tagedit":
         for case in t_edit_cases(tier):
             yield case, True, "tagedit", None
+    elif part == "jsonnum":
+        lits = jn_literals(tier)
+        for li in range(unit["lo"], unit["hi"]):
+            for frame in JN_FRAMES:
+                for entry in (("loads", "load") if frame in ("bare", "object") else ("loads",)):
+                    case = {"kind": "jsonnum", "literal": lits[li], "frame": frame}
+                    if entry != "loads":
+                        case["entry"] = entry
+                    yield case, jn_is_hard(lits[li]), "jsonnum:%s:%s" % (frame, "float" if "." in lits[li] else "int"), None
     elif part == "jsonmut":
         for n in range(len(jm_steps())):
             yield {"kind": "jsonmut", "step": n}, n > 0, "jsonmut", None
@@ -1788,13 +1995,17 @@ def _decide_stream(res, unit, tier, candidates):
 def _xref_unit(unit, tier):
     res = Result()
     b = BOUNDS[tier]
-    terms = all_terms(b["term_nodes"])
+    shapes = unit.get("family") == "shapes"
+    terms = term_list(unit.get("family", "core"), tier)
     top = b["term_nodes"]
     for ti in range(unit["lo"], unit["hi"]):
         t = terms[ti]
         size = term_size(t)
         ext = id(t) in _EXT_IDS
-        full = size < top if not ext else size <= b["xref_ext_full"]
+        if shapes:
+            full = size <= b["xref_shapes_full"]
+        else:
+            full = size < top if not ext else size <= b["xref_ext_full"]
         for s in (INPUTS_NL if has_kind(t, "mark") else INPUTS):
             if not full and len(s) > b["xref_short"]:
                 continue
@@ -1817,7 +2028,7 @@ def replay(case):
     return [{"clause": c, "case": case, "expected": e, "observed": o, "features": f} for c, e, o, f in vio]
 
 
-CHECKERS.update({"json": check_json_case, "jsonedit": check_json_edit_case, "jsonmut": check_json_mut_case,
+CHECKERS.update({"json": check_json_case, "jsonnum": check_json_num_case, "jsonedit": check_json_edit_case, "jsonmut": check_json_mut_case,
                  "tag": check_tag_case, "tagedit": check_tag_edit_case})
 
 
